@@ -231,6 +231,31 @@ def time_scenario(rng):
                          handovers=len([s for s in inrun if s > 0]), one_per_file=len(cuts) == nfr - 1))
 
 
+def time_from_model(scn, rng):
+    """materialise a layout chosen by TLC on the forcing-in-time model (MC_Frames, GEN configuration): frame steps in simulation
+    order, file of each frame, direction, run length.  Real times: forward t = start + s dt, reversed t = start - s dt."""
+    dt = rng.choice([30, 60, 600])
+    imax, jmax, N = rng.choice([(6, 5, 2), (5, 6, 2)])
+    fs, files, rev, nsteps = list(scn["fs"]), list(scn["file"]), bool(scn["rev"]), int(scn["nsteps"])
+    span = max(fs) - min(fs) + 4
+    start = (span + max(0, max(fs))) * dt if rev else (2 - min(0, min(fs))) * dt
+    tt = [(start - s * dt) if rev else (start + s * dt) for s in fs]
+    order = sorted(range(len(tt)), key=lambda k: tt[k])            # ascending real time = file order
+    ftimes = [tt[k] for k in order]
+    fl = [files[k] for k in order]
+    cuts = [k for k in range(1, len(fl)) if fl[k] != fl[k - 1]]
+    stop = start - nsteps * dt if rev else start + nsteps * dt
+    H = [[40] * imax for _ in range(jmax)]
+    M = [[1] * imax for _ in range(jmax)]
+    fm = dict(a=0, b=0, c=rng.randrange(1, 40), d=rng.randrange(1, 30), e=0)
+    xq, yq, z = probes(rng, None, imax, jmax, 3, H, N)
+    inrun = [s for s in fs if 0 <= s < nsteps]
+    return dict(kind="time", dt=dt, imax=imax, jmax=jmax, N=N, ftimes=ftimes, cuts=cuts, start=start, stop=stop, rev=rev,
+                H=H, M=M, fm=fm, pack=rng.random() < 0.3, hasscal=True, subgrid=None, xq=xq, yq=yq, z=z, late=0,
+                cls=dict(rev=rev, multifile=len(cuts) > 0, adjacent=any(b - a == 1 for a, b in zip(fs, fs[1:])), frame_at_start=(0 in fs),
+                         handovers=len([s for s in inrun if s > 0]), one_per_file=len(cuts) == len(fs) - 1, model=True))
+
+
 def space_scenario(rng):
     """C02 family: time-constant field with pairwise distinct-ish node values, masks, bathymetry, subgrids, packing."""
     dt = rng.choice([30, 60])
